@@ -526,8 +526,10 @@ func monWindow(w *World) {
 			switch e.kind {
 			case 'D':
 				if e.seq == mtop%s {
-					mtop++
-					for mtop-mbase > n && len(late) > 0 {
+					// (late acknowledgements are tried against the
+					// window as it was before this transmission: their
+					// meaning depends on where the top is)
+					for mtop+1-mbase > n && len(late) > 0 {
 						used := false
 						for k, le := range late {
 							if apply(le) {
@@ -540,6 +542,7 @@ func monWindow(w *World) {
 							break
 						}
 					}
+					mtop++
 					if mtop-mbase > n {
 						w.fail("window/outstanding/"+dir,
 							"%s: %d data packets transmitted for the first time with only %d acknowledged by delivered ACK/NACKs: %d outstanding > N=%d",
